@@ -71,11 +71,11 @@ def run(c):
         rl = c.pick(7, 8)
         part = c.path("seeder_scen_rand.ndjson")
         res = c.tlc("gsp", "SeederScen", cfg="MC_SeederScen_%d" % rl, edges_out=part, workers=W, timeout=3000,
-                    simulate="num=%d" % c.pick(4000, 30000), depth=rl + 1)
+                    simulate="num=%d" % c.pick(4000, 12000), depth=rl + 1)
         if res.rc != 0 or res.errors:
             raise vlib.Infra("TLC simulation of SeederScen failed:\n" + vlib.tail(res.out, 30))
         seen = set()
-        cap = c.pick(4000, 50000)
+        cap = c.pick(4000, 20000)
         for line in open(part):
             if line not in seen and len(seen) < cap:
                 seen.add(line)
